@@ -148,6 +148,69 @@ def run(ctx):
             ctx.violation("relabelling / re-typing changed the result: " + d,
                           {"cfg": cfg, "pred": p, "ref": r, "pred2": p2, "ref2": r2, "map_pred": mp_p, "map_ref": mp_r})
     farey_cases(ctx)
+    many_fragments(ctx)
+    many_components(ctx)
+
+
+def many_fragments(ctx):
+    """one reference covered by 35-50 small prediction fragments, merge matcher with threshold 0: every fragment improves the union, so
+    all are merged whatever the order -- under compact labels 1..n and under labels scattered over a wide range"""
+    rng = ctx.rng
+    for _ in range(ctx.scale(3, 20)):
+        nf = rng.randint(35, 50)
+        w = 2 * nf + rng.randint(2, 6)
+        h = rng.choice([2, 3])
+        ref = np.zeros((h, w), "uint32"); pred = np.zeros((h, w), "uint32")
+        ref[0, 1:1 + 2 * nf] = 1
+        for k in range(nf):
+            pred[0, 1 + 2 * k:1 + 2 * k + rng.choice([1, 2, 2])] = k + 1
+        # ... next to many spurious predictions that overlap no reference (they must stay out of every union)
+        for k in range(rng.randint(10, 30)):
+            pred[h - 1, 2 * k:2 * k + 1] = nf + 1 + k
+        cfg = {"input": "unmatched", "matcher": "merge", "m2o": False, "mmetric": rng.choice(["IOU", "DSC"]), "mthr": 0.0,
+               "imetrics": ["IOU", "DSC"], "gmetrics": []}
+        hi = rng.choice([2 ** 16, 2 ** 20, 2 ** 24 - 1])            # the property quantifies over relabellings into [1, 2^24)
+        plabs = [int(x) for x in np.unique(pred) if x]
+        new = rng.sample(range(1, hi), len(plabs))
+        mp_p = dict(zip(plabs, new))
+        mp_r = {1: rng.randint(1, hi)}
+        dt2 = rng.choice(["uint32", "uint64"])
+        p2, r2 = apply(pred, mp_p, dt2), apply(ref, mp_r, dt2)
+        o1, o2 = meta.run_both(cfg, pred, ref, p2, r2)
+        ctx.count({"many_fragments": nf, "cfg": cfg, "hi": hi, "dtype": dt2}, True)
+        ctx.bump("many merged fragments / scattered labels")
+        d = meta.same_outcome(o1, o2)
+        if d:
+            ctx.violation(f"relabelling {nf} merged fragments with labels scattered below {hi} changed the result: " + d,
+                          {"cfg": cfg, "pred": pred, "ref": ref, "pred2": p2, "ref2": r2, "map_pred": mp_p, "map_ref": mp_r})
+
+
+def many_components(ctx):
+    """semantic input with several hundred components of one class: the class LABEL (1, 2, 200, 300, 70000) must not matter"""
+    rng = ctx.rng
+    for _ in range(ctx.scale(2, 10)):
+        n = rng.choice([257, 300, 520])
+        nd = rng.choice([1, 2])
+        if nd == 1:
+            ref = np.zeros(2 * n + 3, "int64"); ref[1:1 + 2 * n:2] = 1
+        else:
+            ref = np.zeros((2, 2 * n + 3), "int64"); ref[0, 1:1 + 2 * n:2] = 1
+        pred = ref.copy()
+        for _k in range(rng.randint(0, 5)):
+            pred.reshape(-1)[rng.randrange(pred.size)] = 0
+        cfg = {"input": "semantic", "backend": rng.choice([None, "scipy", "cc3d"]), "matcher": "naive", "m2o": False, "mmetric": "IOU", "mthr": 0.5,
+               "imetrics": ["IOU"], "gmetrics": ["DSC"]}
+        lab1, dt1 = rng.choice([(1, "uint8"), (2, "uint8"), (1, "int16"), (200, "uint8")])
+        lab2, dt2 = rng.choice([(300, "uint16"), (70000, "uint32"), (256, "int32"), (65535, "uint16")])
+        a_p, a_r = (pred * lab1).astype(dt1), (ref * lab1).astype(dt1)
+        b_p, b_r = (pred * lab2).astype(dt2), (ref * lab2).astype(dt2)
+        o1, o2 = meta.run_both(cfg, a_p, a_r, b_p, b_r)
+        ctx.count({"many_components": n, "cfg": cfg, "labels": [lab1, dt1, lab2, dt2]}, True)
+        ctx.bump("hundreds of components, class label renamed")
+        d = meta.same_outcome(o1, o2)
+        if d:
+            ctx.violation(f"{n} components of one class: renaming the class label {lab1} ({dt1}) to {lab2} ({dt2}) changed the result: " + d,
+                          {"cfg": cfg, "pred": a_p, "ref": a_r, "pred2": b_p, "ref2": b_r, "map_pred": {lab1: lab2}, "map_ref": {lab1: lab2}})
 
 
 def farey_cases(ctx):
